@@ -165,7 +165,10 @@ func (m *mem) Close() error {
 			continue
 		}
 		m.mu.Unlock()
+		// hold the token while waiting, a GC or a new request must not use the wait group at the same time
+		<-repo.wgBlock
 		repo.wg.Wait()
+		repo.wgBlock <- struct{}{}
 		// cancel all uploads
 		err := repo.uploads.DeleteAll()
 		if err != nil {
